@@ -48,6 +48,7 @@ class FutureBase(object):
     def __init__(self):
         self._value = _none
         self._error = None
+        self._error_traceback = None
         self._in_repr = False
         self.on_computed = core_events.EventHook()
 
@@ -82,6 +83,7 @@ class FutureBase(object):
 
         """
         self._error = None
+        self._error_traceback = None
         self._value = _none
 
     def error(self):
@@ -105,6 +107,9 @@ class FutureBase(object):
         if self.is_computed():
             raise FutureIsAlreadyComputed(self)
         self._error = error
+        # The traceback glued so far belongs to this future: the exception object can be the
+        # error of several futures (every task it propagates through), each with its own.
+        self._error_traceback = getattr(error, "_traceback", None)
         self._value = None
         self._computed()
 
@@ -150,6 +155,10 @@ class FutureBase(object):
 
     def raise_if_error(self):
         if self._error is not None:
+            if self._error_traceback is not None:
+                # A task that let this error propagate since has stored its own glued
+                # traceback on the (shared) exception object; raise with ours.
+                self._error._traceback = self._error_traceback
             core_errors.reraise(self._error)
 
     def __call__(self):
@@ -207,6 +216,7 @@ class ConstFuture(FutureBase):
     def __init__(self, value):
         self._value = _none
         self._error = None
+        self._error_traceback = None
         self.on_computed = (
             core_events.sinking_event_hook
         )  # Simple performance optimization
@@ -226,6 +236,7 @@ class ErrorFuture(FutureBase):
     def __init__(self, error):
         self._value = _none
         self._error = None
+        self._error_traceback = None
         self.on_computed = (
             core_events.sinking_event_hook
         )  # Simple performance optimization
